@@ -125,53 +125,98 @@ static void qsx_print_qarr (FILE * o, mpq_t * a, int n)
  * in qsx_tok now.  Returns NULL on API failure. */
 static mpq_QSdata *qsx_read_lp (FILE * in)
 {
-	int ncols, nrows, i, j, rv = 0;
+	/* optional 6th header token: build order
+	 *   (none)     all columns (QSnew_col), then rows (QSadd_row)
+	 *   ROWSFIRST  empty rows first (QSnew_row), then columns with their entries (QSadd_col)
+	 *   MIXED      first half of the columns, all rows restricted to them, remaining columns with QSadd_col
+	 * the resulting problem is the same; the internal column order (structmap/rowmap) differs */
+	int ncols, nrows, i, j, rv = 0, order = 0, ncfirst;
 	mpq_QSdata *p;
 	mpq_t a, b, c;
+	char **cname = 0, **rname = 0, *rsense = 0;
+	mpq_t *cobj = 0, *clo = 0, *cup = 0, *rrhs = 0, *rrng = 0;
+	int *rk = 0, **rind = 0;
+	mpq_t **rval = 0;
 	if (qsx_ntok < 5 || strcmp (qsx_tok[0], "LP")) qsx_die ("LP header expected");
 	ncols = atoi (qsx_tok[3]);
 	nrows = atoi (qsx_tok[4]);
+	if (qsx_ntok > 5) order = !strcmp (qsx_tok[5], "ROWSFIRST") ? 1 : (!strcmp (qsx_tok[5], "MIXED") ? 2 : 0);
 	p = mpq_QScreate_prob (qsx_tok[1], strcmp (qsx_tok[2], "MAX") ? QS_MIN : QS_MAX);
 	if (!p) return NULL;
 	mpq_init (a); mpq_init (b); mpq_init (c);
+	cname = (char **) calloc (ncols + 1, sizeof (char *)); rname = (char **) calloc (nrows + 1, sizeof (char *));
+	rsense = (char *) calloc (nrows + 1, 1);
+	cobj = mpq_EGlpNumAllocArray (ncols + 1); clo = mpq_EGlpNumAllocArray (ncols + 1); cup = mpq_EGlpNumAllocArray (ncols + 1);
+	rrhs = mpq_EGlpNumAllocArray (nrows + 1); rrng = mpq_EGlpNumAllocArray (nrows + 1);
+	rk = (int *) calloc (nrows + 1, sizeof (int)); rind = (int **) calloc (nrows + 1, sizeof (int *));
+	rval = (mpq_t **) calloc (nrows + 1, sizeof (mpq_t *));
 	for (i = 0; i < ncols; i++)
 	{
 		if (!qsx_next (in) || strcmp (qsx_tok[0], "COL") || qsx_ntok < 5) qsx_die ("COL expected");
-		qsx_parse_q (qsx_tok[2], a); qsx_parse_q (qsx_tok[3], b); qsx_parse_q (qsx_tok[4], c);
-		rv = mpq_QSnew_col (p, a, b, c, strcmp (qsx_tok[1], "-") ? qsx_tok[1] : NULL);
-		if (rv) goto FAIL;
+		cname[i] = strcmp (qsx_tok[1], "-") ? strdup (qsx_tok[1]) : NULL;
+		qsx_parse_q (qsx_tok[2], cobj[i]); qsx_parse_q (qsx_tok[3], clo[i]); qsx_parse_q (qsx_tok[4], cup[i]);
 	}
 	for (i = 0; i < nrows; i++)
 	{
-		int k, *ind;
-		mpq_t *val;
-		char sense;
+		int k;
 		if (!qsx_next (in) || strcmp (qsx_tok[0], "ROW") || qsx_ntok < 6) qsx_die ("ROW expected");
-		sense = qsx_tok[2][0];
-		qsx_parse_q (qsx_tok[3], a); qsx_parse_q (qsx_tok[4], b);
+		rname[i] = strcmp (qsx_tok[1], "-") ? strdup (qsx_tok[1]) : NULL;
+		rsense[i] = qsx_tok[2][0];
+		qsx_parse_q (qsx_tok[3], rrhs[i]); qsx_parse_q (qsx_tok[4], rrng[i]);
 		k = atoi (qsx_tok[5]);
 		if (qsx_ntok < 6 + 2 * k) qsx_die ("ROW too short");
-		ind = (int *) malloc (sizeof (int) * (k + 1));
-		val = mpq_EGlpNumAllocArray (k + 1);
+		rk[i] = k;
+		rind[i] = (int *) malloc (sizeof (int) * (k + 1));
+		rval[i] = mpq_EGlpNumAllocArray (k + 1);
 		for (j = 0; j < k; j++)
 		{
-			ind[j] = atoi (qsx_tok[6 + 2 * j]);
-			qsx_parse_q (qsx_tok[7 + 2 * j], val[j]);
+			rind[i][j] = atoi (qsx_tok[6 + 2 * j]);
+			qsx_parse_q (qsx_tok[7 + 2 * j], rval[i][j]);
 		}
-		if (sense == 'R')
-			rv = mpq_QSadd_ranged_row (p, k, ind, val, &a, 'R', &b, strcmp (qsx_tok[1], "-") ? qsx_tok[1] : NULL);
-		else
-			rv = mpq_QSadd_row (p, k, ind, val, &a, sense, strcmp (qsx_tok[1], "-") ? qsx_tok[1] : NULL);
-		free (ind);
-		mpq_EGlpNumFreeArray (val);
-		if (rv) goto FAIL;
 	}
+	ncfirst = order == 0 ? ncols : (order == 1 ? 0 : ncols / 2);
+	for (i = 0; i < ncfirst && !rv; i++) rv = mpq_QSnew_col (p, cobj[i], clo[i], cup[i], cname[i]);
+	for (i = 0; i < nrows && !rv; i++)
+	{
+		/* entries restricted to the columns that exist already */
+		int k = 0, *ind = (int *) malloc (sizeof (int) * (rk[i] + 1));
+		mpq_t *val = mpq_EGlpNumAllocArray (rk[i] + 1);
+		for (j = 0; j < rk[i]; j++)
+			if (rind[i][j] < ncfirst || order == 0) { ind[k] = rind[i][j]; mpq_set (val[k], rval[i][j]); k++; }
+		if (rsense[i] == 'R') rv = mpq_QSadd_ranged_row (p, k, ind, val, &rrhs[i], 'R', &rrng[i], rname[i]);
+		else rv = mpq_QSadd_row (p, k, ind, val, &rrhs[i], rsense[i], rname[i]);
+		free (ind); mpq_EGlpNumFreeArray (val);
+	}
+	for (i = ncfirst; i < ncols && !rv; i++)
+	{
+		/* column i with its entries (in row order; repeated indices of a row are kept as repeated entries) */
+		int k = 0, cap = 0, r, *ind;
+		mpq_t *val;
+		for (r = 0; r < nrows; r++) for (j = 0; j < rk[r]; j++) if (rind[r][j] == i) cap++;
+		ind = (int *) malloc (sizeof (int) * (cap + 1));
+		val = mpq_EGlpNumAllocArray (cap + 1);
+		for (r = 0; r < nrows; r++)
+		{
+			/* QSadd_col wants distinct row indices: sum repeated entries of one row */
+			int seen = 0;
+			for (j = 0; j < rk[r]; j++)
+				if (rind[r][j] == i)
+				{
+					if (!seen) { ind[k] = r; mpq_set (val[k], rval[r][j]); k++; seen = 1; }
+					else mpq_add (val[k - 1], val[k - 1], rval[r][j]);
+				}
+		}
+		rv = mpq_QSadd_col (p, k, ind, val, cobj[i], clo[i], cup[i], cname[i]);
+		free (ind); mpq_EGlpNumFreeArray (val);
+	}
+	for (i = 0; i < ncols; i++) free (cname[i]);
+	for (i = 0; i < nrows; i++) { free (rname[i]); free (rind[i]); mpq_EGlpNumFreeArray (rval[i]); }
+	free (cname); free (rname); free (rsense); free (rk); free (rind); free (rval);
+	mpq_EGlpNumFreeArray (cobj); mpq_EGlpNumFreeArray (clo); mpq_EGlpNumFreeArray (cup);
+	mpq_EGlpNumFreeArray (rrhs); mpq_EGlpNumFreeArray (rrng);
 	mpq_clear (a); mpq_clear (b); mpq_clear (c);
+	if (rv) { mpq_QSfree_prob (p); return NULL; }
 	return p;
-FAIL:
-	mpq_clear (a); mpq_clear (b); mpq_clear (c);
-	mpq_QSfree_prob (p);
-	return NULL;
 }
 
 /* Internal form, normalised: structural columns in API order (through
